@@ -277,6 +277,7 @@ Docs == CASE DocSet = "unit"   -> UnitDocs
           [] DocSet = "esc"    -> EscDocs
           [] DocSet = "few"    -> FewDocs
           [] DocSet = "sweep"  -> SweepDocs
+          [] DocSet = "pos"    -> PosDocs
           [] DocSet = "props"  -> PropDocs
           [] DocSet = "sortdocs" -> {d \in MultiDocs(2) : \A i \in DOMAIN d.ds : ~d.ds[i].a.p_blank}
 Eligible(gs) == {i \in DOMAIN gs : (~OnlyDocumented) \/ gs[i].d}
